@@ -429,6 +429,21 @@ def random_seq(r, n):
 
 
 def run_shard(spec):
+    try:
+        return _run_shard(spec)
+    except R.Inconclusive as e:
+        # the harness' generous (60 s) quiescence watchdog fired. Only when a stored-events query of the relay is
+        # demonstrably still pending then (its task is named in the message) is this the property's refutation - an
+        # accepted REQ that is met with silence; anything else stays inconclusive
+        if "run_query" in str(e):
+            return {"evaluations": 1, "nontrivial": [], "counters": {"violations_by_key": {"silence": 1}}, "coverage": {"backends": {spec["backend"]: 1}},
+                    "violations": [{"key": "%s/silence/stored-query-never-finishes" % spec["backend"],
+                                    "msg": "[%s] a REQ's stored-events query was still pending 60 s after the last command (%s): no EOSE, no NOTICE" % (spec["backend"], e),
+                                    "replay": {"backend": spec["backend"], "shard": spec}}], "samples": [], "inconclusive": []}
+        return {"evaluations": 0, "nontrivial": [], "counters": {}, "coverage": {}, "violations": [], "samples": [], "inconclusive": ["watchdog: %s" % e]}
+
+
+def _run_shard(spec):
     counters = {}
     if spec["mode"] == "burst":
         # its own process: the LMDB analysis thread keeps the delay it was started with
@@ -466,6 +481,8 @@ def run_shard(spec):
 
 def replay(rp, spec):
     counters = {}
+    if "shard" in rp:
+        return run_shard(rp["shard"])
     if rp.get("mode") == "burst":
         v, nt = R.run(run_req_burst, rp["backend"], counters, rp["seed"])
         return {"evaluations": 1, "nontrivial": nt, "counters": counters, "violations": v, "samples": [], "inconclusive": []}
